@@ -85,6 +85,7 @@ var propClasses = map[string][]string{
 	"C12": {"keys", "panic"},
 	"C15": {"emit", "panic"},
 	"C16": {"sorted", "panic"},
+	"C17": {"values", "replica", "restore", "panic"},
 	"C19": {"trigger", "panic"},
 }
 
